@@ -108,16 +108,16 @@ theorem gen_de_macros :
 
 /-- the JSON behaviours the interpreter's leaf cases transcribe (json/ser.rs) -/
 theorem gen_json_ser_behaviors :
-    Gen.JsonSerSrc.bodies.lookup "Behavior for ValueBehavior::serialize_f64" = some "{ifv.is_nan(){ser.serialize_str(\"NaN\")}elseifv==f64::INFINITY{ser.serialize_str(\"Infinity\")}elseifv==f64::NEG_INFINITY{ser.serialize_str(\"-Infinity\")}else{ser.serialize_f64(v)}}" ∧
-    Gen.JsonSerSrc.bodies.lookup "Behavior for ValueBehavior::serialize_bytes" = some "{ser.collect_str(&Base64Display::new(v,&STANDARD))}" ∧
-    Gen.JsonSerSrc.bodies.lookup "Behavior for KeyBehavior::serialize_bool" = some "{ifv{ser.serialize_str(\"true\")}else{ser.serialize_str(\"false\")}}" ∧
-    Gen.JsonSerSrc.bodies.lookup "Behavior for KeyBehavior::serialize_f64" = some "{ifv.is_nan(){ser.serialize_str(\"NaN\")}elseifv==f64::INFINITY{ser.serialize_str(\"Infinity\")}elseifv==f64::NEG_INFINITY{ser.serialize_str(\"-Infinity\")}else{ser.collect_str(&v)}}" ∧
-    Gen.JsonSerSrc.bodies.lookup "Behavior for KeyBehavior::serialize_bytes" = some "{ser.collect_str(&Base64Display::new(v,&STANDARD))}" := by
+    Gen.JsonSerSrc.hashes.lookup "Behavior for ValueBehavior::serialize_f64" = some 12246971936739892778 /- "{ifv.is_nan(){ser.serialize_str(\"NaN\")}elseifv==f64::INFINITY{ser.serialize_str(\"Infinity\")}elseifv==f64::NEG_INFINITY{ser.serialize_str(\"-Infinity\")}else{ser.serialize_f64(v)}}" -/ ∧
+    Gen.JsonSerSrc.hashes.lookup "Behavior for ValueBehavior::serialize_bytes" = some 16583646635135397205 /- "{ser.collect_str(&Base64Display::new(v,&STANDARD))}" -/ ∧
+    Gen.JsonSerSrc.hashes.lookup "Behavior for KeyBehavior::serialize_bool" = some 1329447138230407948 /- "{ifv{ser.serialize_str(\"true\")}else{ser.serialize_str(\"false\")}}" -/ ∧
+    Gen.JsonSerSrc.hashes.lookup "Behavior for KeyBehavior::serialize_f64" = some 13998938644453356541 /- "{ifv.is_nan(){ser.serialize_str(\"NaN\")}elseifv==f64::INFINITY{ser.serialize_str(\"Infinity\")}elseifv==f64::NEG_INFINITY{ser.serialize_str(\"-Infinity\")}else{ser.collect_str(&v)}}" -/ ∧
+    Gen.JsonSerSrc.hashes.lookup "Behavior for KeyBehavior::serialize_bytes" = some 16583646635135397205 /- "{ser.collect_str(&Base64Display::new(v,&STANDARD))}" -/ := by
   decide +kernel
 
 /-- Smile: raw binary, JSON's key behaviour, nothing else overridden (smile/ser.rs, smile/de) -/
 theorem gen_smile_behaviors :
-    Gen.SmileSerSrc.bodies.lookup "Serializer<W>::new" = some "{Serializer(serde_smile::Serializer::builder().raw_binary(true).build(writer),)}" ∧
+    Gen.SmileSerSrc.hashes.lookup "Serializer<W>::new" = some 14783835765627538931 /- "{Serializer(serde_smile::Serializer::builder().raw_binary(true).build(writer),)}" -/ ∧
     (Gen.SmileSerSrc.bodies.filter (fun p => p.1.startsWith "Behavior for ")).length = 0 ∧
     (Gen.SmileDeClientSrc.bodies.filter (fun p => p.1.startsWith "Behavior for ")).length = 0 := by
   decide +kernel
